@@ -412,11 +412,17 @@ class ScopeGen(ScopeFn):
             self.seen.append(node)
         return node.node
 
-    def iterator(self, target):
+    def iterator(self, target, outer_refs_from=None):
         """
         Declare an iteration variable name for this scope; as in Python, the
-        iteration variable(s) cannot be reassigned.
+        iteration variable(s) cannot be reassigned. For the first clause,
+        `outer_refs_from` is the index in `self.seen` of the first reference
+        made by its iterable, which belongs to the enclosing scope.
         """
+        if outer_refs_from is not None:
+            for node in self.seen[outer_refs_from:]:
+                self.parent.access(node)
+            del self.seen[outer_refs_from:]
         self.iterators.update(
             name.id for name in ast.walk(target) if isinstance(name, ast.Name)
         )
